@@ -264,6 +264,17 @@ pub fn run(args: &Args, model: &mut Model) -> Report {
          (starts, invoke, cross-session send, delayed send, cancel, shutdown); non-trivial = distinct \
          (site, held classes) acquisition records observed on the real code",
     );
+    #[cfg(feature = "hooks")]
+    {
+        // worker process for a batch of stress scenarios (see locks_dyn.rs): no static part
+        if args.extra.first().map(|s| s.as_str()) == Some("c17-child") {
+            match load_table(&framework_root(args)) {
+                Ok(t) => dynamic::run_child(args, model, &t, &mut rep),
+                Err(e) => rep.disagree(json!({"what": "child: cannot read the resolved lock-site table", "error": e})),
+            }
+            return rep;
+        }
+    }
     let table = static_part(args, model, &mut rep);
     #[cfg(feature = "hooks")]
     {
